@@ -122,6 +122,7 @@ theorem RRel.retWrap {N : NumOps} {Q : QRel} {β : Inj N} {D' : List DName} {r r
         | .timeout => .timeout) := by
   intro hr
   cases r <;> cases r' <;> simp only [RRel] at hr
+  any_goals (first | exact RRel.timeout_right hr _ | exact RRel.timeout_left hr _ | exact True.intro)
   · obtain ⟨β1, hle, ha, h⟩ := hr
     rename_i c _ c' _
     cases c <;> cases c' <;> simp only [ACtl] at ha
@@ -131,9 +132,6 @@ theorem RRel.retWrap {N : NumOps} {Q : QRel} {β : Inj N} {D' : List DName} {r r
     · exact RRel.mono hle (RRel.ok (A := AVs) ha h)
   · obtain ⟨β1, hle, hv, h⟩ := hr
     exact RRel.mono hle (RRel.err hv h)
-  · exact RRel.timeout_left hr _
-  · exact RRel.timeout_left hr _
-  · trivial
 
 /-- every call level respects the relation -/
 theorem callClosure_ok {N : NumOps} (ρ : ExtOracle N) (hρ : OracleFlat ρ)
@@ -230,49 +228,83 @@ theorem runChunk_rel {N : NumOps} (ρ : ExtOracle N) (hρ : OracleFlat ρ) (hCF 
     ⟨.nil, fun _ _ => by simp only [lookupAssoc, OptRel]⟩)
 
 theorem observe_rel {N : NumOps} {β : Inj N} {r r' : Res N (List (Val N))} (h : RRel (VQ cx) cx β AVs r r') :
-    (cx.upto = true ∧ observe r = .timeout) ∨ observe r' = observe r := by
+    (cx.upto = true ∧ observe r = .timeout) ∨ (cx.uptoR = true ∧ observe r' = .timeout) ∨ observe r' = observe r := by
   cases r <;> cases r' <;> simp only [RRel] at h
   · obtain ⟨β1, _, ha, hs⟩ := h
-    right; simp only [observe, hs.trace, hs.canonList ha]
+    right; right; simp only [observe, hs.trace, hs.canonList ha]
+  · exact .inr (.inl ⟨h, rfl⟩)
   · obtain ⟨β1, _, hv, hs⟩ := h
-    right; simp only [observe, hs.trace, hs.canon hv]
+    right; right; simp only [observe, hs.trace, hs.canon hv]
+  · exact .inr (.inl ⟨h, rfl⟩)
   · exact .inl ⟨h, rfl⟩
   · exact .inl ⟨h, rfl⟩
-  · exact .inr rfl
+  · exact .inr (.inr rfl)
 
-/-- **Observational refinement, general form**: `VR`-related chunks have the same outcome from related states —
-or (only when `cx.upto`) the original exhausts its budget -/
-theorem runChunk_vr' {N : NumOps} (ρ : ExtOracle N) (hρ : OracleFlat ρ) (hCF : ∀ n, cx.CF N ρ n (callClosure ρ n))
+/-- **Observational refinement, most general form**: same outcome, or (only when `cx.upto`) the original exhausts
+its budget, or (only when `cx.uptoR`) the rewritten program does -/
+theorem runChunk_vr'' {N : NumOps} (ρ : ExtOracle N) (hρ : OracleFlat ρ) (hCF : ∀ n, cx.CF N ρ n (callClosure ρ n))
     (n : Nat) {b b' : Block} {D' : List DName} (h : VR cx [] (.b b) (.b b') D') {β : Inj N} {σ σ' : State N}
     (hs : SRel (VQ cx) cx β σ σ') :
     (cx.upto = true ∧ observe (runChunk ρ n b σ) = .timeout) ∨
+      (cx.uptoR = true ∧ observe (runChunk ρ n b' σ') = .timeout) ∨
       observe (runChunk ρ n b' σ') = observe (runChunk ρ n b σ) :=
   observe_rel (runChunk_rel ρ hρ hCF n h hs)
+
+/-- contexts without `uptoR`: same outcome — or (only when `cx.upto`) the original exhausts its budget -/
+theorem runChunk_vr' {N : NumOps} (ρ : ExtOracle N) (hρ : OracleFlat ρ) (hCF : ∀ n, cx.CF N ρ n (callClosure ρ n))
+    (n : Nat) {b b' : Block} {D' : List DName} (h : VR cx [] (.b b) (.b b') D') {β : Inj N} {σ σ' : State N}
+    (hs : SRel (VQ cx) cx β σ σ') (hur : cx.uptoR = false := by rfl) :
+    (cx.upto = true ∧ observe (runChunk ρ n b σ) = .timeout) ∨
+      observe (runChunk ρ n b' σ') = observe (runChunk ρ n b σ) := by
+  rcases runChunk_vr'' ρ hρ hCF n h hs with h1 | ⟨h2, _⟩ | h3
+  · exact .inl h1
+  · rw [hur] at h2; cases h2
+  · exact .inr h3
+
+/-- contexts without `upto`: same outcome — or (only when `cx.uptoR`) the REWRITTEN program exhausts its budget -/
+theorem runChunk_vrR {N : NumOps} (ρ : ExtOracle N) (hρ : OracleFlat ρ) (hCF : ∀ n, cx.CF N ρ n (callClosure ρ n))
+    (n : Nat) {b b' : Block} {D' : List DName} (h : VR cx [] (.b b) (.b b') D') {β : Inj N} {σ σ' : State N}
+    (hs : SRel (VQ cx) cx β σ σ') (hu : cx.upto = false := by rfl) :
+    observe (runChunk ρ n b' σ') = .timeout ∨ observe (runChunk ρ n b' σ') = observe (runChunk ρ n b σ) := by
+  rcases runChunk_vr'' ρ hρ hCF n h hs with ⟨h1, _⟩ | ⟨_, h2⟩ | h3
+  · rw [hu] at h1; cases h1
+  · exact .inl h2
+  · exact .inr h3
 
 /-- exact contexts: equality -/
 theorem runChunk_vr {N : NumOps} (ρ : ExtOracle N) (hρ : OracleFlat ρ) (n : Nat) {b b' : Block} {D' : List DName}
     (h : VR cx [] (.b b) (.b b') D') {β : Inj N} {σ σ' : State N} (hs : SRel (VQ cx) cx β σ σ')
-    (hu : cx.upto = false := by rfl) (hCF : ∀ n, cx.CF N ρ n (callClosure ρ n) := by intros; trivial) :
+    (hu : cx.upto = false := by rfl) (hCF : ∀ n, cx.CF N ρ n (callClosure ρ n) := by intros; trivial)
+    (hur : cx.uptoR = false := by rfl) :
     observe (runChunk ρ n b' σ') = observe (runChunk ρ n b σ) := by
-  rcases runChunk_vr' ρ hρ hCF n h hs with ⟨h1, _⟩ | h2
+  rcases runChunk_vr' ρ hρ hCF n h hs hur with ⟨h1, _⟩ | h2
   · rw [hu] at h1; cases h1
   · exact h2
 
 theorem runProgram_vr {N : NumOps} (ρ : ExtOracle N) (hρ : OracleFlat ρ) (n : Nat) (externs : List String)
     {b b' : Block} {D' : List DName} (h : VR cx [] (.b b) (.b b') D')
     (hI : cx.I N initRel (initState externs : State N) (initState externs) := by trivial)
-    (hu : cx.upto = false := by rfl) (hCF : ∀ n, cx.CF N ρ n (callClosure ρ n) := by intros; trivial) :
+    (hu : cx.upto = false := by rfl) (hCF : ∀ n, cx.CF N ρ n (callClosure ρ n) := by intros; trivial)
+    (hur : cx.uptoR = false := by rfl) :
     runProgram ρ n externs b' = runProgram ρ n externs b :=
-  runChunk_vr ρ hρ n h (SRel.init (VQ cx) externs hI) hu hCF
+  runChunk_vr ρ hρ n h (SRel.init (VQ cx) externs hI) hu hCF hur
 
 /-- up-to-timeout contexts: same outcome unless the original exhausts its budget -/
 theorem runProgram_vr_upto {N : NumOps} (ρ : ExtOracle N) (hρ : OracleFlat ρ) (n : Nat) (externs : List String)
     {b b' : Block} {D' : List DName} (h : VR cx [] (.b b) (.b b') D')
     (hI : cx.I N initRel (initState externs : State N) (initState externs) := by trivial)
-    (hCF : ∀ n, cx.CF N ρ n (callClosure ρ n) := by intros; trivial) :
+    (hCF : ∀ n, cx.CF N ρ n (callClosure ρ n) := by intros; trivial) (hur : cx.uptoR = false := by rfl) :
     runProgram ρ n externs b = .timeout ∨ runProgram ρ n externs b' = runProgram ρ n externs b := by
-  rcases runChunk_vr' ρ hρ hCF n h (SRel.init (VQ cx) externs hI) with ⟨_, h1⟩ | h2
+  rcases runChunk_vr' ρ hρ hCF n h (SRel.init (VQ cx) externs hI) hur with ⟨_, h1⟩ | h2
   · exact .inl h1
   · exact .inr h2
+
+/-- `uptoR` contexts: same outcome unless the REWRITTEN program exhausts its budget -/
+theorem runProgram_vr_uptoR {N : NumOps} (ρ : ExtOracle N) (hρ : OracleFlat ρ) (n : Nat) (externs : List String)
+    {b b' : Block} {D' : List DName} (h : VR cx [] (.b b) (.b b') D')
+    (hI : cx.I N initRel (initState externs : State N) (initState externs) := by trivial)
+    (hCF : ∀ n, cx.CF N ρ n (callClosure ρ n) := by intros; trivial) (hu : cx.upto = false := by rfl) :
+    runProgram ρ n externs b' = .timeout ∨ runProgram ρ n externs b' = runProgram ρ n externs b :=
+  runChunk_vrR ρ hρ hCF n h (SRel.init (VQ cx) externs hI) hu
 
 end DarkluaModel.Sem.HeapU
